@@ -31,6 +31,8 @@ def registry():
         model_py.register4(_REG, PROPERTIES)
         model_py.register5(_REG, PROPERTIES)
         model_py.register6(_REG, PROPERTIES)
+        model_py.register7(_REG, PROPERTIES)
+        model_py.register8(_REG, PROPERTIES)
         from . import properties
         properties.register(_REG, PROPERTIES)
     return _REG
